@@ -108,6 +108,9 @@ func (t *loopTr) expr(e ast.Expr) (string, lkind) {
 		if ak == kMarshs {
 			return fmt.Sprintf("(%s.getD %s %s)", a, i, marshDefault), kMarsh
 		}
+		if ak == kStrings {
+			return fmt.Sprintf("(%s.getD %s ([] : List (BitVec 8)))", a, i), kString
+		}
 		ek := ak.elem()
 		if ek.isSlice() {
 			t.fail(x, "a row of a slice of slices may only be used as an argument x[j][lo:] or be assigned `x[j] = make(…)` (aliasing-sensitive)")
@@ -338,7 +341,7 @@ func (t *loopTr) index(x *ast.IndexExpr) (string, string, lkind, types.Object) {
 	} else {
 		t.fail(x, "index expression %s: only variable[index] is supported", t.p.src(x))
 	}
-	if !ak.isSlice() && ak != kString && ak != kMarshs {
+	if !ak.isSlice() && ak != kString && ak != kMarshs && ak != kStrings {
 		t.fail(x, "indexing of %s", ak.lean())
 	}
 	if t.safe[x] {
@@ -406,7 +409,7 @@ func (t *loopTr) call(x *ast.CallExpr) (string, lkind) {
 		switch o.Name() {
 		case "len":
 			s, k := t.expr(x.Args[0])
-			if !k.isSlice() && k != kString && k != kMarshs {
+			if !k.isSlice() && k != kString && k != kMarshs && k != kStrings {
 				t.fail(x, "len of %s", k.lean())
 			}
 			return "(BitVec.ofNat 64 " + s + ".length)", kInt
@@ -478,6 +481,16 @@ func (t *loopTr) convert(at ast.Node, s string, from, to lkind) string {
 		return "(BitVec.setWidth 32 " + s + ")"
 	case from == kInt8 && to == kRune:
 		return "(BitVec.signExtend 32 " + s + ")"
+	case (from == kInt || from == kUint) && to == kUint32:
+		return "(BitVec.setWidth 32 " + s + ")" // truncation
+	case from == kUint32 && (to == kInt || to == kUint):
+		return "(BitVec.setWidth 64 " + s + ")" // zero extension
+	case from == kByte && to == kUint32:
+		return "(BitVec.setWidth 32 " + s + ")" // zero extension
+	case from == kUint32 && (to == kByte || to == kInt8):
+		return "(BitVec.setWidth 8 " + s + ")" // truncation
+	case from == kUint32 && to == kRune, from == kRune && to == kUint32:
+		return s // same bits
 	}
 	t.fail(at, "unsupported conversion %s -> %s", from.lean(), to.lean())
 	return ""
@@ -580,20 +593,20 @@ func (t *loopTr) libCall(x *ast.CallExpr, sel *ast.SelectorExpr) (string, lkind)
 	if !ok || f.Pkg() == nil {
 		t.fail(x, "unsupported call %s", t.p.src(x))
 	}
-	if ex, ok := externFns[f.Pkg().Path()+"."+f.Name()]; ok {
-		if len(x.Args) != len(ex.args) || x.Ellipsis.IsValid() {
-			t.fail(x, "arity")
+	if ex, ok := t.externOf(x, sel, f); ok {
+		if len(ex.rets) != 0 {
+			t.fail(x, "%s has %d results: it is only supported in the statement `x, y := %s(…)`", ex.param, len(ex.rets), t.p.src(x.Fun))
 		}
-		parts := []string{ex.param}
-		for i, a := range x.Args {
-			s, k := t.argValue(a)
-			if k != ex.args[i] && !(ex.args[i] == kString && k == kBytes) {
-				t.fail(a, "argument of type %s", k.lean())
-			}
-			parts = append(parts, s)
+		return t.externCall(x, ex), ex.ret
+	}
+	if f.Type().(*types.Signature).Recv() != nil {
+		if f.Pkg() == t.set.tp.tpkg {
+			t.fail(x, "unsupported call %s (a method call is only supported on the pointer receiver of the method being translated and on a package-level variable)", t.p.src(x))
 		}
-		t.absDeps[ex.param] = ex.ty
-		return "(" + strings.Join(parts, " ") + ")", ex.ret
+		t.fail(x, "unsupported call %s (a method of a library type)", t.p.src(x))
+	}
+	if s, k, ok := t.strsLibCall(x, f); ok {
+		return s, k
 	}
 	switch f.Pkg().Path() + "." + f.Name() {
 	case "math/bits.TrailingZeros":
@@ -645,8 +658,15 @@ func (t *loopTr) libCall(x *ast.CallExpr, sel *ast.SelectorExpr) (string, lkind)
 				if isId {
 					wv, isVar = t.info.Uses[wid].(*types.Var)
 				}
+				if isId && isVar {
+					if r, ok := t.wrapLocalErr(x, wid, wv); ok {
+						res = r
+						arg++
+						continue
+					}
+				}
 				if !isId || !isVar || wv.Parent() != t.set.tp.tpkg.Scope() || !isErrKind(t.kindOf(wv.Type(), x)) {
-					t.fail(x, "fmt.Errorf: the operand of %%w must be a package-level error variable")
+					t.fail(x, "fmt.Errorf: the operand of %%w must be a package-level error variable or a local error variable")
 				}
 				wname := leanString(t.set.errVarName(t, wv, x))
 				if t.errOpt {
